@@ -38,7 +38,9 @@ Inductive matcher : Type :=
 
 (** branches of the fold over [decomposition_dict] (shape A) *)
 Inductive branch : Type :=
-| BAny                          (* points: every key k contributes weight * k.eval() *)
+| BAny                          (* points: value = np.zeros(Point.counter); value += weight * k.eval()   (in place) *)
+| BSum (empty_is_null : bool)   (* points: value = 0; value = value + weight * k.eval()   (re-bound);
+                                   empty_is_null: an empty sum is replaced by np.zeros(Point.counter) *)
 | BLeafExpr (asserted : bool)   (* type(key) == Expression: [assert key.get_is_leaf()]; weight * key.eval() *)
 | BInner (asserted : bool)      (* type(key) == tuple: [assert both leaves]; weight * np.dot(p1.eval(), p2.eval()) *)
 | BConst                        (* key == 1: weight *)
@@ -105,8 +107,46 @@ Definition e_is_leaf (e : expr) : bool := match e with ELeaf _ => true | _ => fa
 (** numpy:  [value += weight * x]  on 1-D arrays: x must have the length of value, or length 1 *)
 Definition vec_iadd (acc : nat) (x : nat) : result :=
   if Nat.eqb x acc || Nat.eqb x 1 then Value (VVec acc) else Raise ValueError.
+(** numpy:  [value = value + weight * x]  on 1-D arrays (out of place: either side of length 1 is broadcast) *)
+Definition vec_add (acc : nat) (x : nat) : result :=
+  if Nat.eqb x acc then Value (VVec acc)
+  else if Nat.eqb acc 1 then Value (VVec x)
+  else if Nat.eqb x 1 then Value (VVec acc)
+  else Raise ValueError.
 (** numpy:  [np.dot(a, b)]  on 1-D arrays *)
 Definition vec_dot (a b : nat) : result := if Nat.eqb a b then Value VNum else Raise ValueError.
+
+(** how Point.eval accumulates: [None] = the Python scalar 0 the re-binding fold starts from *)
+Inductive fold_mode : Type := InPlace | Rebind (empty_is_null : bool).
+
+(** the loop of Point.eval over the keys, left to right, [ev] evaluating one key *)
+Definition fold_points (ev : point -> result) (mode : fold_mode) (dim : nat) : option nat -> list point -> result :=
+  fix go (acc : option nat) (ts : list point) {struct ts} : result :=
+  match ts with
+  | [] =>
+      match acc with
+      | Some a => Value (VVec a)
+      | None => match mode with
+                | Rebind false => Value VNum          (* the scalar 0 *)
+                | _ => Value (VVec dim)               (* np.zeros(Point.counter) *)
+                end
+      end
+  | t :: rest =>
+      match ev t with
+      | Raise e => Raise e
+      | Value (VVec n) =>
+          match (match acc, mode with
+                 | None, _ => Value (VVec n)                          (* 0 + weight * x *)
+                 | Some a, InPlace => vec_iadd a n
+                 | Some a, Rebind _ => vec_add a n
+                 end) with
+          | Value (VVec a') => go (Some a') rest
+          | Value _ => Raise TypeError
+          | Raise e => Raise e
+          end
+      | Value _ => Raise TypeError
+      end
+  end.
 
 Section Eval.
   (** the shapes (from Gen/Handlers.v) and [Point.counter] at the time of the call *)
@@ -118,27 +158,21 @@ Section Eval.
   Definition branches_of (sh : acc_shape) : list branch :=
     match sh with ALeafOrFold _ b => b | _ => [] end.
 
+  Definition point_mode : fold_mode :=
+    match find (fun b => match b with BSum _ => true | _ => false end) (branches_of sh_point) with
+    | Some (BSum b) => Rebind b
+    | _ => InPlace
+    end.
+  (** in place: the accumulator is the preallocated np.zeros(Point.counter) from the start *)
+  Definition point_init : option nat := match point_mode with InPlace => Some dim | Rebind _ => None end.
+
   (** Point.eval *)
   Fixpoint eval_point (p : point) : result :=
     match p with
     | PLeaf (Some n) => Value (VVec n)
     | PLeaf None => Raise (leaf_raise_of sh_point)
     | PLin (Some n) _ => Value (VVec n)
-    | PLin None ts =>
-        (fix fold (ts : list point) : result :=
-           match ts with
-           | [] => Value (VVec dim)                     (* value = np.zeros(Point.counter), never re-shaped *)
-           | t :: rest =>
-               match eval_point t with
-               | Raise e => Raise e
-               | Value (VVec n) =>
-                   match vec_iadd dim n with             (* value += weight * point.eval() *)
-                   | Raise e => Raise e
-                   | Value _ => fold rest
-                   end
-               | Value _ => Raise TypeError
-               end
-           end) ts
+    | PLin None ts => fold_points eval_point point_mode dim point_init ts
     end.
 
   Definition find_branch (k : branch -> bool) : option branch := find k (branches_of sh_expr).
